@@ -558,6 +558,23 @@ def check_guards(ctx, ex, f, fname, pk, p, info):
     else:
         nseg = app("listlen", pos.lid, 0) if isinstance(pos, ListV) else NF.const(1)
         seq = parts[1:]
+    if fname == "generate_changing_data" and isinstance(pos, ListV) and len(parts) >= 2:
+        # every segment is visited: both position sequences are L[:-1] and L[1:] of the same padded list L
+        okseg = True
+        found = []
+        for q, want_lo, want_hi in ((parts[0], 0, -1), (parts[1], 1, 0)):
+            so = getattr(q, "slice_of", None)
+            if so is None:
+                okseg = False
+                found.append("not a slice")
+                continue
+            sl = so[1]
+            lo = 0 if isinstance(sl.lo, NoneV) else (sl.lo.nf.as_const() if isinstance(sl.lo, Num) else None)
+            hi = 0 if isinstance(sl.hi, NoneV) else (sl.hi.nf.as_const() if isinstance(sl.hi, Num) else None)
+            found.append(f"[{'' if lo == 0 else lo}:{'' if hi == 0 else hi}]")
+            okseg = okseg and lo == want_lo and hi == want_hi and isinstance(sl.step, NoneV)
+        okseg = okseg and getattr(parts[0], "slice_of", (None,))[0] is getattr(parts[1], "slice_of", (None,))[0]
+        ctx.check(okseg, rule, f"{pk}:all-segments", zloc, f"segment starts are L{found[0] if found else '?'} and segment ends L{found[1] if len(found) > 1 else '?'}", expected="L[:-1] and L[1:]: all len(changepoints) + 1 segments are visited")
     names = ("means", "variances")
     for nm, q in zip(names, seq):
         ln = _exact_len(ex, p, q)
